@@ -34,6 +34,34 @@ _K_RD_ALL = [f'readers::reader_u16_u32_{k}_{c}' for k in ('blocking', 'async')
              if f'readers::reader_u16_u32_{k}_{c}' not in _K_RD_FAST + _K_RD_ASYNC]
 
 PROPS = {
+    'C01': {
+        'title': 'encode then parse returns the same message',
+        'verus': _VALENC + _VALDEC + _STATE + _DRIVE + _ADRIVE + _READER + _AREADER
+                 + [r'^IppHeader::to_bytes$', r'^attribute::IppAttribute::to_bytes$', r'^attribute::IppAttributes::to_bytes$',
+                    r'^request::IppRequestResponse::to_bytes$',
+                    r'^verif_roundtrip::(lemma_scalar_roundtrip|lemma_token|lemma_delim|lemma_value_scalar|lemma_value|lemma_set|lemma_coll|lemma_members)$',
+                    r'^verif_roundtrip::(lemma_pair_prefix|lemma_pair_values|lemma_pair_members|lemma_pair_map_members|lemma_vals_of)$',
+                    r'^verif_roundtrip::(lemma_attrs|lemma_abs_prefix_all|lemma_close_group|lemma_groups|lemma_attrs_roundtrip|lemma_message_roundtrip)$',
+                    r'^verif_roundtrip::(lemma_coll_of_canonical|lemma_members_map_prefix)$',
+                    r'^verif_machine::(m_run|pair_fold)$', r'^verif_spec::(aval|abs_vals|abs_map|spec_val_enc|set_enc|members_enc)$'],
+        'kani': ['tables::table_value_tag', 'tables::table_delimiter_tag', 'tables::table_tag_none_outside'] + _K_RD_FAST,
+        'kani_thorough': _K_RD_ALL,
+        'bounded': ['c01', 'c01_utc_dir', 'container'],
+        'assumptions': [_A_STREAM, _A_BYTES, _A_UTF8, _A_LOG, _A_W8, _A_TERM, _A_U16,
+                        'composition: encoder == spec (C03 obligations), lemma_message_roundtrip (proved): m_message(header ++ attrs ++ payload) == '
+                        '(emitted groups, payload); parser == m_message (C04 obligations). The theorem is over the abstract view: group tags and '
+                        'name -> value maps with values compared through `aval`',
+                        'domain (verif_roundtrip::message_dom / dom_ok): exactly one operation group, first; no group of kind end-of-attributes; '
+                        'attributes filed under their own non-empty name; sets of >= 2 non-set elements; member-name kind only outside collections; '
+                        'Other.tag an undecoded tag within 0x10-0x4a other than begCollection/endCollection; everything within the 16-bit lengths; '
+                        'dateTime direction a single octet (see known finding)',
+                        'A-groups: that ALL non-operation groups are emitted, in message order, is assumed (vstd Filter); what is proved is that '
+                        'whatever is emitted comes back identical, and the bounded check c01 confirms the full statement on its corpus',
+                        'A-utf8 incl. utf8(empty) = empty; A-string-ext; A-btree-order; payload bytes: the parser leaves the stream exactly after the end '
+                        'tag (C06); IppPayload itself is outside Verus (bounded c01/c06 read it back)'],
+        'uncovered': ['messages with a second operation-attributes group (the encoder writes only the first one) are outside the domain used here'],
+        'design_ref': '§4 C01',
+    },
     'C02': {
         'title': 'parsers are total on arbitrary bytes',
         'verus': _VALDEC + _STATE + _DRIVE + _ADRIVE + _READER + _AREADER + _VALENC + [r'^verif_spec::scan_rest$'],
